@@ -165,13 +165,14 @@ StreamsManagerBase<MAX_STREAMS> {
     /// Signals all `Stream`s to end as soon as possible (making them reach their "out of elements" phase).\
     /// Any parked streams are awaken, so they may end as well.
     pub fn cancel_all_streams(&self) {
-        let used_streams = unsafe { &* self.used_streams.get() };
-        for stream_id in used_streams.iter() {
+        // goes through every possible id instead of through `used_streams`: that list is compacted in place whenever a stream
+        // is dropped -- which is what the streams cancelled here do, possibly before this loop is over -- and a stream whose
+        // entry slid behind the cursor meanwhile would never be cancelled
+        for stream_id in 0..MAX_STREAMS as u32 {
             #[cfg(feature = "verif")] crate::verif::yield_point();
-            if *stream_id == u32::MAX {
-                break
+            if self.keep_stream_running(stream_id) {
+                self.cancel_stream(stream_id);
             }
-            self.cancel_stream(*stream_id);
         }
     }
 
